@@ -179,8 +179,10 @@ def option_provenance(ctx, rule='A6'):
            'the first existing source node decides: the scan breaks right after the assignment', '')
     if assigns:
         guards.check_guarded(ctx, rule, fe, assigns,
-                             lambda atom, truth: truth is True and isinstance(atom, ast.Compare) and
-                             isinstance(atom.ops[0], ast.In) and 'str_context()' in norm(atom.left) and
+                             lambda atom, truth: isinstance(atom, ast.Compare) and len(atom.ops) == 1 and
+                             ((isinstance(atom.ops[0], ast.In) and truth is True) or
+                              (isinstance(atom.ops[0], ast.NotIn) and truth is False)) and
+                             'str_context()' in norm(atom.left) and
                              norm(atom.comparators[0]) == 'src_nodes', set(), 'hit-iff-node-exists',
                              'an option is taken from the scan only under the test that its source node exists in '
                              'the source architecture')
